@@ -373,7 +373,8 @@ func c02LaneReader(t *testing.T, r *sim.Run) {
 		if tooLong {
 			switch {
 			case n == cutIdx && rd.Err() != nil: // stopped at the over-long line with an error
-			case n == len(want) && rd.Err() == nil: // handled the long line
+			case n == len(want) && !wantErr && rd.Err() == nil: // handled the long line
+			case n == len(want) && wantErr && errors.Is(rd.Err(), sim.ErrInjected): // handled it, then met the injected read error
 			default:
 				r.Fail("records", "reader/long-line-lost", "%s: a line of 64KiB or more: reader stopped after %d records with Err=%v; the format prescribes %d records before that line and %d in all", fname, n, rd.Err(), cutIdx, len(want))
 			}
